@@ -426,7 +426,7 @@ def main():
                       serves_properties=[c["property_id"] for c in checks],
                       kind_free_text="TLC 1.8 explicit-state model checker on /verif/spec/*.tla; harness/ replays/validates against /repo")],
         checks=checks,
-        notes="See DESIGN.md (section 11 describes the tree as built). known_findings.json lists recorded findings (C15 documented no-copy aliasing, C08 Gonze-Lee with_full_terms, C16 constructor options not recorded by save(), and findings of the extra checks X03, X05, X06, X08) and every repaired defect ('fixed:' entries, one per 'fix:' commit in /repo); seeded/ holds the seeded changes and seeded/RESULTS.json which check detects which. Every check runs in a child process; death of that process by SIGSEGV/SIGABRT/SIGBUS/SIGFPE/SIGILL while driving the implementation is reported as a violation. Extra checks beyond the fixed property list (same interface, ./check X01..X08): X01 generalized grids / IterMesh protocol / Brillouin-zone relocation, X02 unfolding and modulation, X03 dynamic structure factor and moments, X04 irreducible representations and character tables, X05 the Symmetry class, X06 cell utilities and PhonopyAtoms, X07 band paths and band-structure bookkeeping incl. phonopy-bandplot, X08 electronic free energy and phonopy-vasp-efe (DESIGN.md 11.6).",
+        notes="See DESIGN.md (section 11 describes the tree as built). known_findings.json lists recorded findings (C15 documented no-copy aliasing, C08 Gonze-Lee with_full_terms, C16 constructor options not recorded by save(), and findings of the extra checks X03, X05, X06, X08) and every repaired defect ('fixed:' entries, one per 'fix:' commit in /repo); seeded/ holds the seeded changes and seeded/RESULTS.json which check detects which. Every check runs in a child process; death of that process by SIGSEGV/SIGABRT/SIGBUS/SIGFPE/SIGILL while driving the implementation is reported as a violation. Extra checks beyond the fixed property list (same interface, ./check X01..X10): X01 generalized grids / IterMesh protocol / Brillouin-zone relocation, X02 unfolding and modulation, X03 dynamic structure factor and moments, X04 irreducible representations and character tables, X05 the Symmetry class, X06 cell utilities and PhonopyAtoms, X07 band paths and band-structure bookkeeping incl. phonopy-bandplot, X08 electronic free energy and phonopy-vasp-efe, X09 resolution of the input cell and cell-related settings by the command-line front end, X10 force-constant utilities (cut-off radius, drift, rearrangement) (DESIGN.md 11.6).",
         not_applicable=na,
     )
     with open(os.path.join(VERIF, "MANIFEST.json"), "w") as f:
